@@ -512,6 +512,18 @@ func TestProp_RoundTrip(t *testing.T) {
 					check("after reading from a clone")
 				}
 			}
+			type heldBytes struct {
+				b       []byte
+				pos, sz int64
+			}
+			var held []heldBytes
+			checkHeld := func() {
+				for _, h := range held {
+					if !bytes.Equal(h.b, data[h.pos:h.pos+h.sz]) {
+						t.Fatalf("%s: the byte string read at %d (% x) reads % x after later reads of the script", backend, h.pos, data[h.pos:h.pos+h.sz], h.b)
+					}
+				}
+			}
 			for i, v := range vals {
 				for _, e := range extras[i] {
 					if pos >= 0 {
@@ -522,12 +534,15 @@ func TestProp_RoundTrip(t *testing.T) {
 					break
 				}
 				u, b := read(r, v)
+				checkHeld()
 				sz := int64(v.size())
 				if pos+sz <= total && wantErr == nil {
 					if v.kind == "bytes" {
 						if !bytes.Equal(b, data[pos:pos+sz]) {
 							t.Fatalf("%s: ReadBytes(%d) at %d = % x, want % x", backend, sz, pos, b, data[pos:pos+sz])
 						}
+						// a byte string that was read back stays that byte string while later values are read
+						held = append(held, heldBytes{b, pos, sz})
 					} else if want := refDecode(data[pos:pos+sz], little); u != want {
 						t.Fatalf("%s: read %s at %d (little=%v) = %#x, want %#x; data % x", backend, v.kind, pos, little, u, want, data)
 					}
@@ -668,10 +683,11 @@ func TestProp_Seek(t *testing.T) {
 // ---------- bitmaps
 
 func TestProp_Bitmap(t *testing.T) {
-	ev.Describe("bitmap", "random bit strings of 0-200 bits through BitmapWriter then BitmapReader; any buffer of 0-24 bytes read bit by bit; oracle: bits come back in order, exactly 8*len(buf) reads succeed and equal the MSB-first bits before EOF()/false; non-trivial = >= 9 bits")
+	ev.Describe("bitmap", "random bit strings of 0-200 bits through BitmapWriter (started on a recycled buffer: length 0, up to 40 stale bytes of capacity) then BitmapReader; any buffer of 0-24 bytes read bit by bit; oracle: bits come back in order, exactly 8*len(buf) reads succeed and equal the MSB-first bits before EOF()/false; non-trivial = >= 9 bits")
 	ev.Check(t, 20000, func(t *rapid.T) {
 		bits := rapid.SliceOfN(rapid.Bool(), 0, 200).Draw(t, "bits")
-		pre := rapid.SliceOfN(rapid.Byte(), 0, 0).Draw(t, "pre")
+		// a recycled buffer: length 0, capacity full of stale bytes
+		pre := rapid.SliceOfN(rapid.Byte(), 0, 40).Draw(t, "stale")[:0]
 		w := parse.NewBitmapWriter(pre)
 		for _, b := range bits {
 			w.Write(b)
@@ -712,5 +728,64 @@ func TestProp_Bitmap(t *testing.T) {
 			t.Fatalf("EOF is not sticky")
 		}
 		ev.Case("bitmap", fmt.Sprintf("%v|% x", bits, any), len(bits) >= 9 || len(any) >= 2, fmt.Sprintf("bytes=%d", len(any)))
+	})
+}
+
+// A seeker that is not at offset 0 when the reader is built: the property does not say whether the data then start at byte
+// 0 or at the current offset, but whichever it is, Pos, Len, the values and the end must agree with each other.
+func TestProp_SeekerOffset(t *testing.T) {
+	ev.Describe("seeker-offset", "io.ReadSeeker backends (bytes.Reader-like and *os.File) advanced by k bytes before NewBinaryReaderReader(r, -1) (the library measures the length itself); oracle (valid under either reading of where the data start): Pos() starts at 0, Len() is len(data)-base for base = 0 or k, exactly Len() single-byte reads succeed with Err()==nil and return data[base+i], Pos+Len stays constant and Len never goes negative, the next read returns 0 with Err()==io.EOF, Seek(0, SeekEnd) lands on the initial Len; non-trivial = k > 0 and >= 2 bytes behind it")
+	ev.Check(t, 3000, func(t *rapid.T) {
+		data := rapid.SliceOfN(rapid.Byte(), 0, 40).Draw(t, "data")
+		k := rapid.IntRange(0, len(data)).Draw(t, "advance")
+		src := &seekReader{plainReader{data: data, chunk: rapid.SampledFrom([]int{0, 1, 3}).Draw(t, "chunk"), eofWith: rapid.Bool().Draw(t, "eofWith")}}
+		if _, err := src.Seek(int64(k), io.SeekStart); err != nil {
+			t.Fatalf("harness seeker: %v", err)
+		}
+		n := int64(-1) // the library measures the length itself: only then is it responsible for what Len means
+		r, err := parse.NewBinaryReaderReader(src, n)
+		if err != nil {
+			t.Skip("the constructor declines this combination")
+		}
+		total := r.Len()
+		if r.Pos() != 0 {
+			t.Fatalf("k=%d n=%d: Pos() = %d on a new reader", k, n, r.Pos())
+		}
+		// the bases under which the reported length is right: the whole data (0) or the bytes behind the offset (k); a
+		// caller-supplied length fixes Len and leaves both starts possible as long as the bytes exist
+		var bases []int64
+		for _, b := range []int64{0, int64(k)} {
+			if (n < 0 && total == int64(len(data))-b) || (n >= 0 && total == n && b+total <= int64(len(data))) {
+				bases = append(bases, b)
+			}
+		}
+		if len(bases) == 0 {
+			t.Fatalf("k=%d n=%d data of %d bytes: Len() = %d fits neither the whole data nor the bytes behind the offset", k, n, len(data), total)
+		}
+		var got []byte
+		for i := int64(0); i < total; i++ {
+			if r.Len() != total-i || r.Pos() != i {
+				t.Fatalf("k=%d n=%d: after %d reads Pos()=%d Len()=%d, want %d and %d", k, n, i, r.Pos(), r.Len(), i, total-i)
+			}
+			c := r.ReadUint8()
+			if r.Err() != nil {
+				t.Fatalf("k=%d n=%d: read %d of %d fails with %v", k, n, i, total, r.Err())
+			}
+			got = append(got, c)
+		}
+		ok := false
+		base := int64(-1)
+		for _, b := range bases {
+			if bytes.Equal(got, data[b:b+total]) {
+				ok, base = true, b
+			}
+		}
+		if !ok {
+			t.Fatalf("k=%d n=%d data % x: Len() = %d, so the data start at byte %v, but the %d bytes read are % x", k, n, data, total, bases, total, got)
+		}
+		if c := r.ReadUint8(); c != 0 || r.Err() != io.EOF || r.Len() < 0 {
+			t.Fatalf("k=%d n=%d: the read behind the last of %d bytes returns %#x, Err()=%v, Len()=%d", k, n, total, c, r.Err(), r.Len())
+		}
+		ev.Case("seeker-offset", fmt.Sprintf("%d|%d|% x", k, n, data), k > 0 && int(total) >= 2, fmt.Sprintf("base=%d", base))
 	})
 }
